@@ -262,6 +262,10 @@ var _ utils.PriorityQueue
 //@ spec srcItem(ix *Hnsw, q math.Vector, it *utils.PriorityQueueItem) bool = it != nil && allocated(it) && istype(it, utils.PriorityQueueItem) && resultSource(ix, q, it)
 //@ spec beamQueue(ix *Hnsw, q math.Vector, pq utils.PriorityQueue) bool = istype(pq, *utils.priorityQueue) && pq.pay != 0 && hdyn(pq.(*utils.priorityQueue).queue) && forall k int :: 0 <= k && k < len(qs(pq.(*utils.priorityQueue).queue)) ==> srcItem(ix, q, qs(pq.(*utils.priorityQueue).queue)[k])
 //@ spec knownQueue(pq utils.PriorityQueue) bool = istype(pq, *utils.priorityQueue) && pq.pay != 0 && allQ(pq.(*utils.priorityQueue).queue)
+// heuristic selection, order and non-emptiness: if the input is a heap-ordered beam of the query, the queue returned is a
+// well-ordered max-queue (so Search's back-to-front fill yields ascending scores in this mode as well), and it is not empty when
+// the input is not and k >= 1 (every queue operation's heap-order preconditions are C01 obligations here too)
+//@ spec ordBeam(ix *Hnsw, q math.Vector, pq utils.PriorityQueue) bool = beamQueue(ix, q, pq) && ordH(pq.(*utils.priorityQueue).queue)
 //@ func (*index.Hnsw).selectNeighborsHeuristic
 //@ props C02 C01
 //@ safety UNCLAIMED
@@ -280,8 +284,21 @@ var _ utils.PriorityQueue
 //@ requires [C01 items-known] old(beamQueue(this, query, neighbors)) ==> allQ($arg0.queue) && qP($arg1)
 //@ end
 //@ ensures [C01 selected-are-beam-items] old(beamQueue(this, query, neighbors)) ==> beamQueue(this, query, ret)
+//@ ensures [C01 selected-ordered] old(ordBeam(this, query, neighbors)) ==> istype(ret, *utils.priorityQueue) && ret.pay != 0 && ordH(ret.(*utils.priorityQueue).queue) && isMax(ret.(*utils.priorityQueue).queue)
+//@ ensures [C01 selected-nonempty] old(ordBeam(this, query, neighbors)) && old(len(qs(neighbors.(*utils.priorityQueue).queue))) >= 1 && k >= 1 ==> len(qs(ret.(*utils.priorityQueue).queue)) >= 1
+//@ at call priorityQueue).Reverse
+//@ requires [C01 queue-intact] old(ordBeam(this, query, neighbors)) ==> wfpq($arg0)
+//@ end
+//@ at call priorityQueue).Pop
+//@ requires [C01 queue-intact] old(ordBeam(this, query, neighbors)) ==> wfpq($arg0)
+//@ end
+//@ at call priorityQueue).Push
+//@ requires [C01 queue-intact] old(ordBeam(this, query, neighbors)) ==> wfpq($arg0) && $arg1 != nil && !isnan($arg1.priority) && qP($arg1)
+//@ end
 //@ modifies cells[utils.minPriorityQueue], cells[utils.maxPriorityQueue], mem[*utils.PriorityQueueItem]
 //@ loop 1
+//@ invariant [C01 order-0] old(ordBeam(this, query, neighbors)) ==> wfpq(candidateVertices.(*utils.priorityQueue)) && wfpq(neighbors.(*utils.priorityQueue))
+//@ invariant [C01 nonempty-0] old(ordBeam(this, query, neighbors)) && old(len(qs(neighbors.(*utils.priorityQueue).queue))) >= 1 ==> len(qs(candidateVertices.(*utils.priorityQueue).queue)) >= 1
 //@ invariant [C01 queues-known-0] old(beamQueue(this, query, neighbors)) ==> knownQueue(candidateVertices)
 //@ invariant [C01 queues-known-1] old(beamQueue(this, query, neighbors)) ==> knownQueue(neighbors)
 //@ invariant [C01 queues-known-7] old(beamQueue(this, query, neighbors)) ==> (qs(neighbors.(*utils.priorityQueue).queue).ref == 0 ==> len(qs(neighbors.(*utils.priorityQueue).queue)) == 0) && (qs(candidateVertices.(*utils.priorityQueue).queue).ref == 0 ==> len(qs(candidateVertices.(*utils.priorityQueue).queue)) == 0)
@@ -292,6 +309,8 @@ var _ utils.PriorityQueue
 //@ invariant [C01 queues-known-6] old(beamQueue(this, query, neighbors)) ==> (qs(neighbors.(*utils.priorityQueue).queue).ref == 0 || qs(candidateVertices.(*utils.priorityQueue).queue).ref != qs(neighbors.(*utils.priorityQueue).queue).ref)
 //@ invariant [C01 made-here] old(beamQueue(this, query, neighbors)) ==> forall it *utils.PriorityQueueItem :: fresh(it) ==> resultSource(this, query, it)
 //@ loop 2
+//@ invariant [C01 order-0] old(ordBeam(this, query, neighbors)) ==> wfpq(candidateVertices.(*utils.priorityQueue)) && wfpq(neighbors.(*utils.priorityQueue))
+//@ invariant [C01 nonempty-0] old(ordBeam(this, query, neighbors)) && old(len(qs(neighbors.(*utils.priorityQueue).queue))) >= 1 ==> len(qs(candidateVertices.(*utils.priorityQueue).queue)) >= 1
 //@ invariant [C01 queues-known-0] old(beamQueue(this, query, neighbors)) ==> knownQueue(candidateVertices)
 //@ invariant [C01 queues-known-1] old(beamQueue(this, query, neighbors)) ==> knownQueue(neighbors)
 //@ invariant [C01 queues-known-7] old(beamQueue(this, query, neighbors)) ==> (qs(neighbors.(*utils.priorityQueue).queue).ref == 0 ==> len(qs(neighbors.(*utils.priorityQueue).queue)) == 0) && (qs(candidateVertices.(*utils.priorityQueue).queue).ref == 0 ==> len(qs(candidateVertices.(*utils.priorityQueue).queue)) == 0)
@@ -302,6 +321,8 @@ var _ utils.PriorityQueue
 //@ invariant [C01 queues-known-6] old(beamQueue(this, query, neighbors)) ==> (qs(neighbors.(*utils.priorityQueue).queue).ref == 0 || qs(candidateVertices.(*utils.priorityQueue).queue).ref != qs(neighbors.(*utils.priorityQueue).queue).ref)
 //@ invariant [C01 made-here] old(beamQueue(this, query, neighbors)) ==> forall it *utils.PriorityQueueItem :: fresh(it) ==> resultSource(this, query, it)
 //@ loop 3
+//@ invariant [C01 order-0] old(ordBeam(this, query, neighbors)) ==> wfpq(candidateVertices.(*utils.priorityQueue)) && wfpq(neighbors.(*utils.priorityQueue))
+//@ invariant [C01 nonempty-0] old(ordBeam(this, query, neighbors)) && old(len(qs(neighbors.(*utils.priorityQueue).queue))) >= 1 ==> len(qs(candidateVertices.(*utils.priorityQueue).queue)) >= 1
 //@ invariant [C01 queues-known-0] old(beamQueue(this, query, neighbors)) ==> knownQueue(candidateVertices)
 //@ invariant [C01 queues-known-1] old(beamQueue(this, query, neighbors)) ==> knownQueue(neighbors)
 //@ invariant [C01 queues-known-7] old(beamQueue(this, query, neighbors)) ==> (qs(neighbors.(*utils.priorityQueue).queue).ref == 0 ==> len(qs(neighbors.(*utils.priorityQueue).queue)) == 0) && (qs(candidateVertices.(*utils.priorityQueue).queue).ref == 0 ==> len(qs(candidateVertices.(*utils.priorityQueue).queue)) == 0)
@@ -312,6 +333,9 @@ var _ utils.PriorityQueue
 //@ invariant [C01 queues-known-6] old(beamQueue(this, query, neighbors)) ==> (qs(neighbors.(*utils.priorityQueue).queue).ref == 0 || qs(candidateVertices.(*utils.priorityQueue).queue).ref != qs(neighbors.(*utils.priorityQueue).queue).ref)
 //@ invariant [C01 made-here] old(beamQueue(this, query, neighbors)) ==> forall it *utils.PriorityQueueItem :: fresh(it) ==> resultSource(this, query, it)
 //@ loop 4
+//@ invariant [C01 order-0] old(ordBeam(this, query, neighbors)) ==> wfpq(candidateVertices.(*utils.priorityQueue)) && wfpq(neighbors.(*utils.priorityQueue))
+//@ invariant [C01 order-1] old(ordBeam(this, query, neighbors)) ==> wfpq(result.(*utils.priorityQueue)) && isMax(result.(*utils.priorityQueue).queue)
+//@ invariant [C01 nonempty-1] old(ordBeam(this, query, neighbors)) && old(len(qs(neighbors.(*utils.priorityQueue).queue))) >= 1 ==> len(qs(result.(*utils.priorityQueue).queue)) >= 1 || len(qs(candidateVertices.(*utils.priorityQueue).queue)) >= 1
 //@ invariant [C01 queues-known-0] old(beamQueue(this, query, neighbors)) ==> knownQueue(candidateVertices)
 //@ invariant [C01 queues-known-1] old(beamQueue(this, query, neighbors)) ==> knownQueue(neighbors)
 //@ invariant [C01 queues-known-7] old(beamQueue(this, query, neighbors)) ==> (qs(neighbors.(*utils.priorityQueue).queue).ref == 0 ==> len(qs(neighbors.(*utils.priorityQueue).queue)) == 0) && (qs(candidateVertices.(*utils.priorityQueue).queue).ref == 0 ==> len(qs(candidateVertices.(*utils.priorityQueue).queue)) == 0)
@@ -329,6 +353,9 @@ var _ utils.PriorityQueue
 //@ invariant [C01 result-known-6] old(beamQueue(this, query, neighbors)) ==> (qs(neighbors.(*utils.priorityQueue).queue).ref == 0 || qs(result.(*utils.priorityQueue).queue).ref != qs(neighbors.(*utils.priorityQueue).queue).ref)
 //@ invariant [C01 made-here] old(beamQueue(this, query, neighbors)) ==> forall it *utils.PriorityQueueItem :: fresh(it) ==> resultSource(this, query, it)
 //@ loop 5
+//@ invariant [C01 order-0] old(ordBeam(this, query, neighbors)) ==> wfpq(candidateVertices.(*utils.priorityQueue)) && wfpq(neighbors.(*utils.priorityQueue))
+//@ invariant [C01 order-1] old(ordBeam(this, query, neighbors)) ==> wfpq(result.(*utils.priorityQueue)) && isMax(result.(*utils.priorityQueue).queue)
+//@ invariant [C01 nonempty-1] old(ordBeam(this, query, neighbors)) && old(len(qs(neighbors.(*utils.priorityQueue).queue))) >= 1 ==> k >= 1 ==> len(qs(result.(*utils.priorityQueue).queue)) >= 1
 //@ invariant [C01 queues-known-0] old(beamQueue(this, query, neighbors)) ==> knownQueue(candidateVertices)
 //@ invariant [C01 queues-known-1] old(beamQueue(this, query, neighbors)) ==> knownQueue(neighbors)
 //@ invariant [C01 queues-known-7] old(beamQueue(this, query, neighbors)) ==> (qs(neighbors.(*utils.priorityQueue).queue).ref == 0 ==> len(qs(neighbors.(*utils.priorityQueue).queue)) == 0) && (qs(candidateVertices.(*utils.priorityQueue).queue).ref == 0 ==> len(qs(candidateVertices.(*utils.priorityQueue).queue)) == 0)
@@ -422,6 +449,7 @@ var _ utils.PriorityQueue
 //@ ensures [C01 atmostk] isnil(ret1) ==> len(ret0) <= k
 //@ at call Hnsw).selectNeighborsHeuristic
 //@ requires [C01 beam-known] beamQueue(this, query, $arg2)
+//@ requires [C01 beam-ordered] ordH($arg2.(*utils.priorityQueue).queue)
 //@ end
 //@ ghost lastV *hnswVertex = nil
 //@ at call priorityQueue).Pop
@@ -430,26 +458,26 @@ var _ utils.PriorityQueue
 //@ set lastV = $ret0.value.(*hnswVertex)
 //@ end
 //@ ensures [C01 one-slot-per-beam-item] isnil(ret1) ==> len(ret0) <= beam
-//@ ensures [C01 nonempty-answer] isnil(ret1) && this.config.searchAlgorithm == 0 && k >= 1 && old(this.entrypoint != nil && this.len >= 1 && this.len < 9223372036854775808) ==> len(ret0) >= 1
+//@ ensures [C01 nonempty-answer] isnil(ret1) && k >= 1 && old(this.entrypoint != nil && this.len >= 1 && this.len < 9223372036854775808) ==> len(ret0) >= 1
 //@ ensures [C01 results-are-beam-items] isnil(ret1) ==> forall j int :: 0 <= j && j < len(ret0) ==> exists v *hnswVertex! :: v != nil && v.deleted != 1 && ret0[j].Id == v.id && ret0[j].Metadata == v.metadata && ret0[j].Score == Distance(this.space, query, v.vector)
 //@ ensures [never-nil-nil] isnil(ret1) ==> !isnil(ret0)
-// ascending order (simple selection): the beam is a max-heap (searchLevel), selection pops from the same heap, and the result is
+// ascending order (both selection modes): the beam is a max-heap (searchLevel), selection pops from the same heap, and the result is
 // filled back to front with the successive maxima - each popped item is no better than what was popped before it
 //@ trust floatorder
-//@ ensures [C01 ascending] isnil(ret1) && this.config.searchAlgorithm == 0 ==> forall a int, b int :: 0 <= a && a < b && b < len(ret0) ==> !(ret0[b].Score < ret0[a].Score)
+//@ ensures [C01 ascending] isnil(ret1) && forall a int, b int :: 0 <= a && a < b && b < len(ret0) ==> !(ret0[b].Score < ret0[a].Score)
 //@ at call priorityQueue).Pop
-//@ requires [C01 queue-intact] this.config.searchAlgorithm == 0 ==> wfpq($arg0)
+//@ requires [C01 queue-intact] wfpq($arg0)
 //@ end
 //@ modifies cells[utils.minPriorityQueue], cells[utils.maxPriorityQueue], mem[*utils.PriorityQueueItem]
 //@ loop 1
 //@ invariant [C01 descent-live] entrypoint != nil && entrypoint.deleted != 1 && minDistance == Distance(this.space, query, entrypoint.vector)
 //@ loop 2
 //@ invariant [C01 beam-queue] istype(neighbors, *utils.priorityQueue) && neighbors.pay != 0 && allQ(neighbors.(*utils.priorityQueue).queue)
-//@ invariant [C01 heap] this.config.searchAlgorithm == 0 ==> wfpq(neighbors.(*utils.priorityQueue)) && isMax(neighbors.(*utils.priorityQueue).queue)
-//@ invariant [C01 enough-left] this.config.searchAlgorithm == 0 ==> len(qs(neighbors.(*utils.priorityQueue).queue)) >= i + 1
-//@ invariant [C01 ascending-so-far] this.config.searchAlgorithm == 0 ==> forall a int, b int :: i < a && a < b && b < len(result) ==> !(result[b].Score < result[a].Score)
-//@ invariant [C01 scores-are-numbers] this.config.searchAlgorithm == 0 ==> forall a int :: i < a && a < len(result) ==> !isnan(result[a].Score)
-//@ invariant [C01 rest-not-better] this.config.searchAlgorithm == 0 && i + 1 < len(result) ==> forall c int :: 0 <= c && c < len(qs(neighbors.(*utils.priorityQueue).queue)) ==> !(result[i + 1].Score < qs(neighbors.(*utils.priorityQueue).queue)[c].priority)
+//@ invariant [C01 heap] wfpq(neighbors.(*utils.priorityQueue)) && isMax(neighbors.(*utils.priorityQueue).queue)
+//@ invariant [C01 enough-left] len(qs(neighbors.(*utils.priorityQueue).queue)) >= i + 1
+//@ invariant [C01 ascending-so-far] forall a int, b int :: i < a && a < b && b < len(result) ==> !(result[b].Score < result[a].Score)
+//@ invariant [C01 scores-are-numbers] forall a int :: i < a && a < len(result) ==> !isnan(result[a].Score)
+//@ invariant [C01 rest-not-better] i + 1 < len(result) ==> forall c int :: 0 <= c && c < len(qs(neighbors.(*utils.priorityQueue).queue)) ==> !(result[i + 1].Score < qs(neighbors.(*utils.priorityQueue).queue)[c].priority)
 //@ invariant [C01 last-slot] i + 1 < len(result) ==> lastV != nil && lastV.deleted != 1 && result[i + 1].Id == lastV.id && result[i + 1].Metadata == lastV.metadata && result[i + 1].Score == Distance(this.space, query, lastV.vector)
 //@ invariant [C01 filled] fresh(result) && 0 - 1 <= i && i < len(result) && forall j int :: i < j && j < len(result) ==> slotV(j) != nil && slotV(j).deleted != 1 && result[j].Id == slotV(j).id && result[j].Metadata == slotV(j).metadata && result[j].Score == Distance(this.space, query, slotV(j).vector)
 
